@@ -14,7 +14,8 @@ import (
 	"verif/mc/core"
 )
 
-var prefixes = []string{">", ">>", ">\n", "", "\t "}
+// the last two prefixes consist of bytes of the text alphabet: a chunk may end in (or be) the prefix
+var prefixes = []string{">", ">>", ">\n", "", "\t ", "a", "ab"}
 var alpha = []byte{'a', '\n', 'b'}
 
 // Input is one execution: the chunks are written in order; the underlying writer accepts Budget
